@@ -47,7 +47,13 @@ def check(prog: Program, tier: str) -> Result:
     _tmp = Result("C05", "", "")
     _c05._r5_6(prog, _tmp)
     res.adopt(_tmp, {"R5.6"}, "R6.6", "with parallel workers, state kept between calls makes the output depend on which files a worker was given before")
-    res.floors.update({"R6.1": 5, "R6.2": 3, "R6.3": 3, "R6.4": 1})
+    # R6.7: constant folding happens in the formatter's process, under ITS hash seed - decided by the C15 check (R15.9), adopted
+    from . import c15 as _c15
+    from ..evaluator import Evaluator as _Ev
+    _tmp2 = Result("C15", "", "")
+    _c15._r15_9(prog, _tmp2, _Ev(prog))
+    res.adopt(_tmp2, {"R15.9"}, "R6.7", "a folded value that depends on the hash seed of the formatting process makes the output differ from run to run")
+    res.floors.update({"R6.1": 5, "R6.2": 3, "R6.3": 3, "R6.4": 1, "R6.7": 2})
     return res
 
 
